@@ -6,6 +6,8 @@ package main
 import (
 	"verifengine/vf"
 
+	_ "verifengine/props/c01"
+	_ "verifengine/props/c04"
 	_ "verifengine/props/c13"
 )
 
